@@ -70,9 +70,18 @@ def run_e1(res, cfg, hs, default_timeout=300, log=None):
         if j.verdict == "holds":
             res.ob(h.name, "holds", **entry)
         elif j.verdict == "fails":
-            fp = cbmc.failed_props(j.out)
-            vals = cbmc.trace_inputs(j.out, h.function)
-            label = fp[0][1] if fp else "?"
+            allfp = cbmc.failed_props(j.out)
+            ub = [x for x in allfp if cbmc.is_formation_only(x[1])]
+            fp = [x for x in allfp if not cbmc.is_formation_only(x[1])]
+            if ub:
+                res.extra.setdefault("mem_ub_formation_reports", []).append(
+                    {"harness": h.name, "failed": ub, "note": "out-of-bounds pointer formed/compared without access; "
+                     "standard-level UB that no sanitizer confirms, reported separately, not a VIOLATION"})
+            if not fp:
+                res.ob(h.name, "holds", formation_ub=len(ub), **entry)
+                continue
+            vals = cbmc.trace_inputs(j.out, h.function, fp[0][0])
+            label = fp[0][1]
             sig = "%s:%s" % (h.function, label.replace(" ", "_"))
             try:
                 ok, txt, cmdline = cbmc.native_replay(cfg, repo_sources(h.srcs), h.file, h.function, vals, defs=h.defs,
@@ -84,16 +93,12 @@ def run_e1(res, cfg, hs, default_timeout=300, log=None):
                  "failed": fp, "native_output": txt[-1500:]}, indent=1))
             if ok:
                 res.ob(h.name, "violated", failed=fp, inputs=vals, **entry)
+                first = [l for l in txt.strip().splitlines() if l.strip() and not l.startswith("=====")] or ["?"]
                 res.violation(sig, "%s fails for inputs %s (native replay: %s)" % (
-                    label, json.dumps(vals), (txt.strip().splitlines() or ["?"])[0][:120]), replay=rp)
+                    label, json.dumps({k: v for k, v in vals.items() if not k.startswith("return_value")}), first[0][:160]), replay=rp)
             else:
-                only_ptr = fp and all(("pointer" in d and "overflow" in d) or "pointer arithmetic" in d for _, d in fp)
-                if only_ptr:
-                    res.ob(h.name, "mem-ub-unconfirmed", failed=fp, inputs=vals, **entry)
-                    res.extra.setdefault("mem_ub_reports", []).append({"harness": h.name, "failed": fp, "inputs": vals})
-                else:
-                    res.ob(h.name, "unreproduced", failed=fp, inputs=vals, **entry)
-                    res.error("counterexample of %s (%s) did not reproduce natively: %s" % (h.name, label, txt[-300:]))
+                res.ob(h.name, "unreproduced", failed=fp, inputs=vals, **entry)
+                res.error("counterexample of %s (%s) did not reproduce natively: %s" % (h.name, label, txt[-300:]))
         else:
             if h.droppable:
                 res.dropped.append({"name": h.name, "reason": j.verdict, "wall_s": round(j.wall, 1)})
